@@ -198,6 +198,7 @@ type ReachInfo struct {
 	FlightsClear  int  // ... overtaken by Clear
 	FlightBurst   bool // one op made more failed overtaken creations than the key allowance (a leak of one key per event cannot hide)
 	StepCap       bool
+	HugeCap       bool // cache with a capacity >= 2^16 (math.MaxInt = "unbounded")
 	Diverged      bool // the container disagrees with the harness about what is present (functional divergence: C10/C08): no verdict
 }
 
@@ -235,6 +236,7 @@ func (i ReachInfo) Classes() []string {
 	add(i.FlightBurst, "reach_more_failed_overtaken_creations_than_the_key_allowance")
 	add(i.Watched[RoleKey] >= 1000, "reach_watched_keys_ge_1000")
 	add(i.StepCap, "reach_step_cap_reached")
+	add(i.HugeCap, "reach_cache_capacity_ge_65536_up_to_maxint")
 	add(i.Diverged, "reach_cut_short_by_functional_divergence")
 	return c
 }
@@ -301,6 +303,7 @@ func RunReach(c ReachCase) (info ReachInfo, v *vstat.Violation) {
 		c.Cap = c.Slots
 	}
 	info.Kind = c.Kind
+	info.HugeCap = !isMapKind(c.Kind) && c.Cap >= 1<<16
 	r := &reachRunner{c: c, info: &info, slots: make([]slot, c.Slots), budget: 30*c.Slots + 10000}
 	sig := "map:reach-panic"
 	if !isMapKind(c.Kind) {
